@@ -522,6 +522,18 @@ pub fn check_read(op: &ROp, stream: &[u8], plan: &ReaderPlan) -> Result<RObs, Fa
     match f {
         HardFault::Error => match &run.out {
             ROut::Io(e) if token_of(e) == Some(plan.token) => Ok(obs),
+            // A `seek` answered once with kind `Interrupted` (media.rs) may
+            // legitimately be retried: the retry succeeds (the fault is
+            // one-shot), so the operation must then behave exactly like the
+            // fault-free run. Anything else is still a violation.
+            _ if plan.token % 3 == 0
+                && reference.calls[j].0 == CallKind::Seek
+                && summary(&run.out) == summary(&reference.out)
+                && run.pos == reference.pos
+                && run.delivered == reference.delivered =>
+            {
+                Ok(obs)
+            }
             ROut::Ok(_) => fail(
                 "fault-reported-as-success",
                 format!("{what}: call {j} of the reader failed with token {} but the operation returned Ok", plan.token),
